@@ -414,7 +414,11 @@ def perform_cached_doit(
         f"Cached expression file {filename} not found, performing doit()..."
     )
     unfolded_expr = unevaluated_expr.doit()
-    _dump_atomically((unevaluated_expr, unfolded_expr), filename)
+    try:
+        _dump_atomically((unevaluated_expr, unfolded_expr), filename)
+    except (pickle.PicklingError, AttributeError, TypeError) as exc:
+        # e.g. an expression that carries a lambda or a local function as attribute
+        _LOGGER.warning(f"Could not cache the expression to {filename}: {exc}")
     return unfolded_expr
 
 
